@@ -12,6 +12,7 @@ import (
 	"verif/harness/filterchk"
 	"verif/harness/histchk"
 	"verif/harness/optchk"
+	"verif/harness/phchk"
 	"verif/harness/readchk"
 	"verif/harness/vk"
 	"verif/harness/walkchk"
@@ -25,6 +26,7 @@ var checks = map[string]func(prop, tier string) int{
 	"C05": func(p, t string) int { return algochk.MainWith(p, t, filterchk.C05SubPhase) },
 	"C06": readchk.Main,
 	"C10": fieldchk.Main,
+	"C12": phchk.Main,
 	"C17": optchk.Main,
 	"C18": histchk.Main,
 	"C19": walkchk.Main,
